@@ -221,6 +221,15 @@ typedef FixedArray<int,false,3,4> Fix2;
 typedef FixedArray<int,false,3,3> Fix2s;
 typedef FixedArray<int,false,2,3,4> Fix3;
 typedef FixedArray<int,false,2,3,4,5> Fix4;
+// FixedArrays driven through their ELEMENT accessors only (drv_views_el.h): pairwise different extents, ranks 4..6,
+// and ACTIVE FixedArrays of rank 1..4
+typedef FixedArray<int,false,3,2,5,4> EFix4;
+typedef FixedArray<int,false,2,3,1,4,5> EFix5;
+typedef FixedArray<int,false,3,1,4,2,6,5> EFix6;
+typedef FixedArray<double,true,4> AFix1;
+typedef FixedArray<double,true,3,4> AFix2;
+typedef FixedArray<double,true,2,3,4> AFix3;
+typedef FixedArray<double,true,3,2,5,4> AFix4;
 
 // rank 0: the element returned by operator() with only scalar arguments; it is read, and -1 is written through it, at once
 struct V0 : VBase {
@@ -445,6 +454,30 @@ template <class AR, int K, typename... As> struct ElemDisp<AR, K, true, As...> {
   static VBase* go(AR& a, const Call& c, As... as) { return Terminal<true>::go(a, c, as...); }
 };
 
+// ELEMENT access with ONE rich index expression (any position; the other arguments int / end-k): every kind of object,
+// const and non-const; defined in drv_views_el*.cpp (drv_views_el.h)
+VBase* rich_elem(Array<1,int>& a, const Call& c);
+VBase* rich_elem(Array<2,int>& a, const Call& c);
+VBase* rich_elem(Array<3,int>& a, const Call& c);
+VBase* rich_elem(Array<4,int>& a, const Call& c);
+VBase* rich_elem(Array<5,int>& a, const Call& c);
+VBase* rich_elem(Array<6,int>& a, const Call& c);
+VBase* rich_elem(Array<1,double,true>& a, const Call& c);
+VBase* rich_elem(Array<2,double,true>& a, const Call& c);
+VBase* rich_elem(Array<3,double,true>& a, const Call& c);
+VBase* rich_elem(Fix1& a, const Call& c);
+VBase* rich_elem(Fix2& a, const Call& c);
+VBase* rich_elem(Fix2s& a, const Call& c);
+VBase* rich_elem(Fix3& a, const Call& c);
+VBase* rich_elem(Fix4& a, const Call& c);
+VBase* rich_elem(EFix4& a, const Call& c);
+VBase* rich_elem(EFix5& a, const Call& c);
+VBase* rich_elem(EFix6& a, const Call& c);
+VBase* rich_elem(AFix1& a, const Call& c);
+VBase* rich_elem(AFix2& a, const Call& c);
+VBase* rich_elem(AFix3& a, const Call& c);
+VBase* rich_elem(AFix4& a, const Call& c);
+
 template <class AR> inline VBase* op_slice(AR& a, const std::vector<std::string>& w, bool cf) {
   enum { R = ArT<AR>::rank };
   if ((int)w.size() != R + 1) throw BadOp();
@@ -455,6 +488,7 @@ template <class AR> inline VBase* op_slice(AR& a, const std::vector<std::string>
     if (arg_rich(c.t[k])) { if (c.xpos >= 0) throw BadOp(); c.xpos = k; }
     if (c.t[k].kind != 0) all_scalar = false;
   }
+  if (c.xpos >= 0 && all_scalar) return rich_elem(a, c);
   if (c.xpos >= 0) return rich_slice(a, c);
   if (all_scalar) return ElemDisp<AR, 0, false>::go(a, c);
   return DoSlice<AR>::go(a, c);
@@ -623,6 +657,13 @@ template <> struct RankOps<1> {
   template <class AR> static VBase* subdiag(AR&, int, int) { throw BadOp(); }
   template <class AR> static VBase* reshape(AR& a, const std::vector<int>& d) { return Reshape1<ArT<AR>::fixed>::go(a, d); }
 };
+// permute(Index i0, Index i1, Index i2 = -1, ...): the overload with separate arguments, ranks 2..6
+template <int R> struct PermuteArgs { template <class AR> static VBase* go(AR&, const int*) { throw BadOp(); } };
+template <> struct PermuteArgs<2> { template <class AR> static VBase* go(AR& a, const int* p) { return wrap(a.permute(p[0], p[1])); } };
+template <> struct PermuteArgs<3> { template <class AR> static VBase* go(AR& a, const int* p) { return wrap(a.permute(p[0], p[1], p[2])); } };
+template <> struct PermuteArgs<4> { template <class AR> static VBase* go(AR& a, const int* p) { return wrap(a.permute(p[0], p[1], p[2], p[3])); } };
+template <> struct PermuteArgs<5> { template <class AR> static VBase* go(AR& a, const int* p) { return wrap(a.permute(p[0], p[1], p[2], p[3], p[4])); } };
+template <> struct PermuteArgs<6> { template <class AR> static VBase* go(AR& a, const int* p) { return wrap(a.permute(p[0], p[1], p[2], p[3], p[4], p[5])); } };
 // soft_link, is_contiguous: Array only
 template <bool Fixed> struct ArrOnly {
   template <class AR> static VBase* softlink(AR& a, bool cf) { if (cf) return wrapc(static_cast<const AR&>(a).soft_link()); return wrap(a.soft_link()); }
@@ -686,10 +727,16 @@ template <class AR> inline VBase* apply_arr(AR& a, const std::vector<std::string
   if (op == "T" && w.size() == 1) return RankOps<R>::T(a, cf);
   if (op == "softlink" && w.size() == 1) return ArrOnly<ArT<AR>::fixed>::softlink(a, cf);
   if (cf) throw BadOp();                 // permute, diag_vector, submatrix_on_diagonal, reshape have no const overload
-  if (op == "permute") {
+  if (op == "permute" || op == "permuteE" || op == "permuteV") {
     if ((int)w.size() != R + 1) throw BadOp();
     int p[R];
     for (int k = 0; k < R; ++k) if (!parse_int(w[k + 1], p[k])) throw BadOp();
+    if (op == "permuteE") {                       // permute(const ExpressionSize<Rank>&)
+      ExpressionSize<R> e;
+      for (int k = 0; k < R; ++k) e[k] = p[k];
+      return wrap(a.permute(e));
+    }
+    if (op == "permuteV") return PermuteArgs<R>::go(a, p);   // permute(i0, i1, ...)
     return wrap(a.permute(p));
   }
   if (op == "diag") {
@@ -754,6 +801,8 @@ template <class AR> inline VBase* make_parent(const std::vector<int>& d, AR*& ke
 }
 VBase* make_fixed(const std::vector<int>& d, Fix1*& f1, Fix2*& f2, Fix2s*& f2s, Fix3*& f3, Fix4*& f4);
 VBase* make_fixed4(Fix4*& f4);          // drv_views_fix4.cpp
+VBase* make_efixed(const std::vector<int>& d);     // drv_views_eld.cpp: EFix4 / EFix5 / EFix6 (the object is owned by the VBase)
+VBase* make_afixed(const std::vector<int>& d);     // drv_views_ele.cpp: AFix1..AFix4
 template <class FA> inline VBase* make_fixed_one(FA*& keep) {
   keep = new FA;
   int* p = keep->data();
